@@ -7,7 +7,7 @@ from props import fam_sym
 
 MANIFEST = dict(
     technique='Coq proof of the symmetry law of the direct sum for every tabulated group (abstract character, permutation of the group by left multiplication checked by the kernel per row) + textbook-sum / symmetry / R-factor oracles on gemmi',
-    text='Theorems: for every group of the table regenerated from /repo, every rotation part R, every hkl, every rational position and every weight, the sum over all symmetry images satisfies F(hR) = F(h) exp(-2 pi i h.t) (in any commutative ring with a character of period 24d; the re-indexing g -> R*g is a permutation of the operation list, kernel-checked for all 564 rows); the anisotropic image factor identity (hR)^T U (hR) = h^T (R U R^T) h. Oracles on gemmi: calculate_sf_from_model / _from_small_structure equal an independent long-double textbook sum (occupancy x form factor x iso/aniso DWF x phase over all images) for random structures incl. special positions, partial occupancies, ions, three tables; symmetry-equivalent reflections, Friedel mates, systematic absences checked on gemmi outputs; two ions of one element with different charges get their own form factors; FFT route (DensityCalculator + transform_map_to_f_phi) vs direct: R < 1% at default settings and not growing when rate/cutoff are refined.',
+    text='The FFT-vs-direct oracle includes anomalous addends (IT92) and small cells in which one atom spans more than half a cell edge. Theorems: for every group of the table regenerated from /repo, every rotation part R, every hkl, every rational position and every weight, the sum over all symmetry images satisfies F(hR) = F(h) exp(-2 pi i h.t) (in any commutative ring with a character of period 24d; the re-indexing g -> R*g is a permutation of the operation list, kernel-checked for all 564 rows); the anisotropic image factor identity (hR)^T U (hR) = h^T (R U R^T) h. Oracles on gemmi: calculate_sf_from_model / _from_small_structure equal an independent long-double textbook sum (occupancy x form factor x iso/aniso DWF x phase over all images) for random structures incl. special positions, partial occupancies, ions, three tables; symmetry-equivalent reflections, Friedel mates, systematic absences checked on gemmi outputs; two ions of one element with different charges get their own form factors; FFT route (DensityCalculator + transform_map_to_f_phi) vs direct: R < 1% at default settings and not growing when rate/cutoff are refined.',
     note='Trusted: Coq kernel + vm_compute; translator; harness (long double reference sum using gemmi form-factor tables, which are property C16). No axioms. The numerical agreement of the C++ sum with the textbook sum and the FFT accuracy are oracle-only (libm, float).')
 
 
@@ -28,7 +28,10 @@ def run(chk):
         lines.append('o_direct\t%d %d %d 1 %d 3 0' % (i, seed + 1, rng.randint(1, 6), rng.choice([1, 2])))
         lines.append('o_small\t%d %d %d 3' % (i, seed + 2, rng.randint(1, 6)))
         lines.append('o_charge\t%d %d' % (i, seed + 3))
-    for i in pick[::4] if quick else pick:
+    # the FFT route for a sample of rows and ALWAYS for the centred triclinic settings (number 1 and 2 with a centring
+    # lattice: the only groups whose grid operations are pure translations)
+    tri = [k for k, rr in enumerate(fam_sym.table_strings()) if rr['number'] <= 2 and not rr['hm'].startswith(b'P')]
+    for i in sorted(set((pick[::4] if quick else pick) + tri)):
         seed = rng.randint(1, 10 ** 6)
         lines.append('o_fft\t%d %d %d %d %d' % (i, seed, rng.randint(3, 12), rng.randint(0, 1), rng.choice([0, 0, 1, 2])))
         # small cells: the density of one atom spans more than half a cell edge (periodic wrap-around of the box)
